@@ -23,7 +23,7 @@ CHECKS = {
     "C19": ("3/C19", "symbolic execution of PluginManager lookups on a bounded symbolic string (character codes and length are z3 integers; dict/set membership forks over the registry's constants); result compared with a reference lookup formula; z3", ""),
     "C18": ("3/C18", "symbolic execution of the configuration classes' own model validators (called directly on objects holding symbolic arrays: normalisation, clamping, bound checks, perturbation canonicalisation applied twice) decided by z3; plus complete traversal of real validated configurations for frozenness and dump/validate round trips", "Partial: pydantic-core's coercion is not encoded."),
     "C16": ("3/C16", "self-composition: the sampler/evaluator code is executed symbolically twice with the same seed and different hidden environments; every random draw is a solver variable indexed by (stream, draw number) or a havoc variable; request equality decided by z3", "Partial: non-interference of ropt's own code; traces through real SciPy/NumPy generators are not claimed."),
-    "C20": ("3/C20", "symbolic execution of ExternalOptimizer.start against stubbed process/pipe/signal primitives under a symbolic life schedule (death point, return code, callback failure point, write/read retries are solver integers); outcome obligations decided per path, z3 decides feasibility", "Partial: parent-side protocol handling; trace equality with in-process runs and OS timing are not claimed."),
+    "C20": ("3/C20", "symbolic execution of ExternalOptimizer.start against stubbed process/pipe/signal primitives under a symbolic life schedule (death point, return code, callback failure point, write/read retries are solver integers); outcome obligations decided per path, z3 decides feasibility; plus a loopback of both real protocol halves (ExternalOptimizer.start against _PluginOptimizer.run over queues) compared with the in-process run of the same scripted algorithm on symbolic points, values and NaN flags, and the real pipe communicator on a FIFO model of symbolic capacity", "Partial: trace equality is decided for scripted algorithms, not for real SciPy runs; the kernel's FIFO, signals and timing are modelled, not executed."),
     "C11": ("3/C11", "differential symbolic execution: the same user-domain problem through ropt with and without symbolic scaling transforms (validators called directly with the transforms as context); equality/equivalence obligations in non-linear real arithmetic decided by z3 (case split, denominator clearing)", ""),
     "C17": ("3/C17", "symbolic execution of SciPySampler with the SciPy distributions/QMC engines stubbed by fresh symbols (every drawn number is a solver variable); entry-identity obligations decided by z3", ""),
     "C06": ("3/C06", "symbolic execution of the evaluator-request layer with a distinct solver variable per evaluator number; label/identity obligations and garbage-invariance by self-composition decided by z3", ""),
